@@ -197,7 +197,7 @@ func clonePaths(p [][]*big.Int) [][]*big.Int {
 
 // InsClasses lists the workload classes of Insertion().
 var InsClasses = []string{
-	"valid/first-free", "valid/last-leaves", "valid/random-pos", "valid/after-occupied", "valid/commitment-zero", "valid/commitment-extremes",
+	"valid/first-free", "valid/last-leaves", "valid/random-pos", "valid/after-occupied", "valid/commitment-zero", "valid/commitment-extremes", "valid/all-zero-commitments",
 	"inv/start-past-end", "inv/start-2^32", "inv/start-field-wrap", "inv/occupied-genuine-path", "inv/occupied-other-path",
 	"inv/wrong-pre", "inv/stale-paths", "inv/post-short", "inv/post-permuted", "inv/post-random", "inv/post-is-pre",
 	"inv/sibling-corrupt", "inv/path-reused", "inv/id-swapped", "inv/start-off-by-one",
@@ -244,6 +244,12 @@ func (e Env) Insertion(r *rand.Rand, class string, depth, batch int) (c *Ins, ok
 		ok = build(3)
 	case "valid/commitment-zero":
 		ids[r.Intn(batch)] = big.NewInt(0)
+		ok = build(r.Intn(4))
+	case "valid/all-zero-commitments":
+		// writing the empty value into empty leaves is a valid append that leaves the root unchanged
+		for i := range ids {
+			ids[i] = big.NewInt(0)
+		}
 		ok = build(r.Intn(4))
 	case "valid/commitment-extremes":
 		for i := range ids {
